@@ -43,6 +43,10 @@ func (t *SiteTable) fill() {
 		if strings.Contains(f, "Fallback") || strings.Contains(f, "Pool") {
 			t.Hot[i] = true
 		}
+		if t.Sites[i].Kind == "sync" {
+			// right before an atomic / pool / lock operation of the library
+			t.Hot[i] = true
+		}
 	}
 	if len(t.Hot) > 4 {
 		t.Hot[1], t.Hot[2] = true, true // pool Put/Get
@@ -74,12 +78,13 @@ func genConcScenario(seed uint64, index int, tier string) *Scenario {
 	r := newRng(seed)
 	sc := &Scenario{Engine: "conc", Seed: seed, Index: index}
 	pr := r.fork(1)
-	sc.Pattern = pick(pr, corpus)
+	sc.Pattern = pickPattern(pr)
 	if pr.p(1, 4) {
 		sc.Pattern = mutatePattern(pr, sc.Pattern)
 	}
 	sc.Knobs = genKnobs(r.fork(2), true)
 	re := parsePattern(sc.Pattern)
+	genASCII = r.fork(9).p(1, 3) // a third of the scenarios: 7-bit haystacks (ASCII-only fast paths)
 	alpha := patternAlphabet(sc.Pattern)
 	hr := r.fork(3)
 	nh := hr.between(1, 4)
